@@ -623,36 +623,53 @@ class LineRun:
         self.cache_lines = {k: cl.get(f"MemoryCache.{k}") for k in ("exists", "get", "set")}
 
     # -- baton
+    def _abort(self, why):
+        """give up the controlled schedule: every worker free-runs to completion (never raise inside the
+        trace function)"""
+        if not self.abort:
+            self.abort = why
+        for t in self.tids:
+            self.sem[t].release()
+
     def _switch(self, me, target):
         self.sem[target].release()
         if not self.sem[me].acquire(timeout=WAIT):
-            self.abort = self.abort or f"thread {me} never got the baton back"
-            raise Hang(self.abort)
+            self._abort(f"thread {me} never got the baton back")
 
     def _others(self, me):
         return tuple(t for t in self.tids if t != me and t not in self.finished)
+
+    def _held_by_other(self, me, obj):
+        """would `with obj:` block now?  All other workers are parked, so a held lock stays held."""
+        lk = getattr(obj, "locked", None)
+        if lk is not None:                       # threading.Lock
+            return bool(lk()) and self.owner.get(id(obj)) != me
+        acq = getattr(obj, "acquire", None)
+        if acq is None:
+            return False
+        try:                                     # RLock / Semaphore / Condition: probe without blocking
+            if acq(False):
+                obj.release()
+                return False
+            return self.owner.get(id(obj)) != me
+        except Exception:
+            return False
 
     def _blocked(self, me, frame, path):
         codes = with_lines(path).get(frame.f_lineno)
         if not codes:
             return False
+        objs = []
         for c in codes:
             try:
-                obj = eval(c, frame.f_globals, frame.f_locals)
-            except Exception:
-                continue
-            lk = getattr(obj, "locked", None)
-            if lk is None:
-                continue
-            if lk() and self.owner.get(id(obj)) != me:
-                return True
-        for c in codes:
-            try:
-                obj = eval(c, frame.f_globals, frame.f_locals)
-                if hasattr(obj, "locked"):
-                    self.owner[id(obj)] = me
+                objs.append(eval(c, frame.f_globals, frame.f_locals))
             except Exception:
                 pass
+        if any(self._held_by_other(me, o) for o in objs):
+            return True
+        for o in objs:
+            if hasattr(o, "acquire"):
+                self.owner[id(o)] = me
         return False
 
     def _yield(self, me, frame, path):
@@ -666,15 +683,16 @@ class LineRun:
         if tgt is not None and tgt in others:
             self._switch(me, tgt)
         spins = 0
-        while self._blocked(me, frame, path):
+        while not self.abort and self._blocked(me, frame, path):
             others = self._others(me)
             spins += 1
             if not others or spins > 200:
-                self.abort = f"thread {me} blocked on a lock nobody will release (line {frame.f_lineno})"
-                raise Hang(self.abort)
+                self._abort(f"thread {me} blocked on a lock nobody will release (line {frame.f_lineno})")
+                return
             self.forced += 1
             self._switch(me, others[(spins - 1) % len(others)])
-        self._action(me, self.files[path], frame.f_lineno)
+        if not self.abort:
+            self._action(me, self.files[path], frame.f_lineno)
 
     # -- action events (where an operation takes effect), used to map the run to a model schedule
     def _note(self, me, kind):
@@ -743,11 +761,9 @@ class LineRun:
                     self.curop[me] = (i, op)
                     w.exec_op(me, op)
                 self.curop[me] = None
+                w.exec_op(me, ("final",))      # still traced: it takes the module lock
             finally:
                 sys.settrace(None)
-            w.exec_op(me, ("final",))
-        except Hang:
-            pass
         finally:
             sys.settrace(None)
             self.finished.add(me)
@@ -781,31 +797,34 @@ class LineRun:
 
 
 def explore_line(progs, files, bound, scan, opcodes=False, budget=None, rng=None, use_dataset=False):
-    """All schedules of `progs` with at most `bound` preemptions (systematic; when `budget` runs is
-    exceeded the remaining frontier is sampled with rng).  Yields (LineRun | None, preempts, start, error)."""
+    """All schedules of `progs` with at most `bound` preemptions, level by level (0, 1, 2 ... preemptions);
+    when the budget of runs does not cover a level, that level is visited in random order (rng) until the
+    budget is spent.  Yields (LineRun | None, preempts, start, error).  Stops after the first hang."""
     tids = sorted(progs)
-    frontier = [({}, s) for s in tids]
-    runs = 0
-    while frontier:
-        if budget is not None and runs >= budget:
-            return
-        if budget is not None and rng is not None and len(frontier) > 4 * budget:
-            frontier = rng.sample(frontier, 2 * budget)
-        P, start = frontier.pop(0)
-        r = LineRun(progs, files, P, start=start, scan=scan, opcodes=opcodes, use_dataset=use_dataset)
-        runs += 1
-        try:
-            r.obs = r.go()
-        except Hang as e:
-            yield None, P, start, str(e)
-            continue
-        yield r, P, start, None
-        if len(P) < bound:
-            last = (max(P) + 1) if P else 0
-            for k in range(last, r.nyield):
-                me, _, _, others = r.trace[k]
-                for u in others:
-                    frontier.append(({**P, k: u}, start))
+    level = [({}, s) for s in tids]
+    runs = hangs = 0
+    for depth in range(bound + 1):
+        nxt = []
+        if budget is not None and rng is not None and runs + len(level) > budget:
+            rng.shuffle(level)
+        for P, start in level:
+            if (budget is not None and runs >= budget) or hangs >= 1:
+                return
+            r = LineRun(progs, files, P, start=start, scan=scan, opcodes=opcodes, use_dataset=use_dataset)
+            runs += 1
+            try:
+                r.obs = r.go()
+            except Hang as e:
+                hangs += 1
+                yield None, P, start, str(e)
+                continue
+            yield r, P, start, None
+            if depth < bound:
+                last = (max(P) + 1) if P else 0
+                for k in range(last, r.nyield):
+                    for u in r.trace[k][3]:
+                        nxt.append(({**P, k: u}, start))
+        level = nxt
 
 
 def model_schedule(progs, order):
@@ -857,8 +876,6 @@ def oracle(progs, w, eff_order):
     """The property text on the observations of one run.  eff_order: the order in which operations took
     effect when known (needed only for inherit and for 'last writer'), else None.  Returns list of str."""
     bad = []
-    if w.errors:
-        bad.append(f"operations raised: {w.errors[:3]}")
     ref = reference(progs, eff_order) if eff_order is not None else None
     for t, prog in progs.items():
         has_inh = any(o[0] == "inherit" for o in prog)
@@ -892,6 +909,8 @@ def oracle(progs, w, eff_order):
             bad.append(f"register: alias {a} in the table was never registered")
     if ref is not None and not any(b.startswith("register") for b in bad) and sorted(tab.items()) != ref[2]:
         bad.append(f"register: final table {sorted(tab.items())} differs from last-writer-wins {ref[2]}")
+    if w.errors:
+        bad.append(f"operations raised: {w.errors[:3]}")
     return bad
 
 
@@ -904,6 +923,9 @@ FIXED_OP = [
                       2: [("enter", 1), ("run", 1), ("exit",), ("run", 1)]}),
     ("nested-shared", {1: [("enter", 2), ("enter", 1), ("run", 1), ("exit",), ("run", 1), ("exit",)],
                        2: [("enter", 1), ("run", 2), ("exit",), ("run", 1)]}),
+    # both threads own a runtime first, then overlap inside the SAME runtime object (shape of defect D17)
+    ("shared-object", {1: [("run", 1), ("enter", 2), ("enter", 1), ("exit",), ("run", 1), ("exit",), ("run", 1)],
+                       2: [("run", 1), ("enter", 1), ("exit",), ("run", 1)]}),
     ("inherit", {1: [("enter", 1), ("exit",), ("enter", 2), ("run", 1)],
                  2: [("inherit", 1), ("run", 1), ("run", 2)]}),
     ("inherit-3", {1: [("enter", 3), ("run", 3), ("exit",)], 2: [("inherit", 1), ("run", 3)],
@@ -924,8 +946,8 @@ FIXED_LINE = [
      ["overload.py"], (2, 3), None),
     ("same-runtime", {1: [("enter", 1), ("run", 1), ("exit",), ("run", 1)],
                       2: [("enter", 1), ("run", 1), ("exit",), ("run", 1)]}, ["runtime.py"], (2, 3), (1, 1)),
-    ("nested-shared", {1: [("enter", 2), ("enter", 1), ("run", 1), ("exit",), ("run", 1), ("exit",)],
-                       2: [("enter", 1), ("run", 2), ("exit",)]}, ["runtime.py"], (2, 2), None),
+    ("shared-object", {1: [("run", 1), ("enter", 2), ("enter", 1), ("exit",), ("run", 1), ("exit",)],
+                       2: [("run", 1), ("enter", 1), ("exit",), ("run", 1)]}, ["runtime.py"], (2, 2), None),
     ("inherit", {1: [("enter", 1), ("exit",), ("run", 1)], 2: [("inherit", 1), ("run", 1)]},
      ["runtime.py"], (2, 3), (1, 1)),
     ("eval-same-fp", {1: [("eval", 31)], 2: [("eval", 32)]}, ["cache.py"], (2, 3), None),
@@ -1226,7 +1248,7 @@ def run(ctx):
         "samples": C.samples,
         "traces_validated_against_impl": len(exprs),
         "correspondence_mismatches": (mism + C.mism)[:6],
-        "violations": C.viol + sviol,
+        "violations": sorted(C.viol, key=lambda v: 0 if v["desc"].startswith(("isolation", "register", "cached", "inherit")) else 1) + sviol,
         "known": [],
         "distribution": dist,
         "exhaustive": False,
@@ -1245,3 +1267,43 @@ def run(ctx):
             "PARTIAL: bytecode-internal preemption, GIL dict atomicity, lock fairness and id()-keyed _LOCKS reuse are outside the model",
         ],
     }
+
+
+def replay(ctx, payload):
+    """re-run one recorded failing run (same programs, same schedule / preemption points) and re-evaluate
+    the property's oracle and the model on it"""
+    v = payload
+    if v.get("kind") == "no-failing-input-found":
+        try:
+            scan = scan_atomicity(lib.REPO)
+            obl = write_obligations(ctx, scan["flags"])
+            bad = {k: r for k, r in obl.items() if not r["ok"]}
+            return bool(bad), {"flags": scan["flags"], "failing_obligations": sorted(bad)}
+        except ScanError as e:
+            return True, {"scan_error": str(e)}
+    if v.get("kind") == "stress":
+        sv = []
+        n = stress(2000, sv, time.time() + 120)
+        return bool(sv), {"rounds": n, "violations": sv[:2]}
+    progs = {int(t): [tuple(o) for o in p] for t, p in v["progs"].items()}
+    try:
+        scan = scan_atomicity(lib.REPO)
+        flags = scan["flags"]
+    except ScanError:
+        scan, flags = {"lines": {}}, {n: True for n in FLAG_NAMES}
+    if v.get("kind") == "op":
+        obs, order, w = run_oplevel(progs, list(v["sched"]), v.get("use_dataset", False))
+        bad = oracle(progs, w, order)
+        ml = ctx.coq_eval("Replay_C15", ["Model.Threads", "Model.ThreadsRun"], COQ_PRELUDE,
+                          [coq_case(flags, progs, list(v["sched"]), True)])[0]
+        return bool(bad) or ml != obs, {"oracle": bad[:4], "impl": obs, "model": ml}
+    P = {int(k): t for k, t in v["preempts"].items()}
+    r = LineRun(progs, v["files"], P, start=v.get("start"), scan=scan, opcodes=v.get("opcodes", False))
+    obs = r.go()
+    ms = model_schedule(progs, r.order) if all(flags.values()) else None
+    bad = oracle(progs, r.w, ms[1] if ms else None)
+    detail = {"oracle": bad[:4], "impl": obs, "preempted_at": [list(r.trace[k][:3]) for k in sorted(P) if k < len(r.trace)]}
+    if ms:
+        detail["model"] = ctx.coq_eval("Replay_C15", ["Model.Threads", "Model.ThreadsRun"], COQ_PRELUDE,
+                                       [coq_case(flags, progs, ms[0], False)])[0]
+    return bool(bad) or (ms is not None and detail["model"] != obs), detail
